@@ -62,7 +62,8 @@ def view(cs):
 
 
 def run_history(events):
-    """Events: 0-2 enter setting k; 3 leave normally; 4 leave through an exception; 5 create inverse; 6 apply last inverse; 7 read."""
+    """Events: 0-2 enter setting k; 3 leave normally; 4 leave through an exception; 5 create inverse; 6 apply last inverse; 7 read;
+    8 transpose the last inverse (the result is tracked as a further inverse with the same expected configuration)."""
     install()
     try:
         model = [view(DEFAULT)]
@@ -89,6 +90,11 @@ def run_history(events):
                 with NoTracing():
                     invs.append(InverseOperator(TOY))
                 inv_model.append(model[-1])
+            elif e == 8 and invs:
+                # the transpose of a lazy inverse is again a lazy inverse: it must keep the configuration of the original
+                with NoTracing():
+                    invs.append(invs[-1].T)
+                inv_model.append(inv_model[-1])
             elif e == 6 and invs:
                 with NoTracing():
                     del SEEN[:]
@@ -109,7 +115,7 @@ def run_history(events):
                 inv.mv(X)
                 if not SEEN or SEEN[0] != m:
                     return False
-                if view(inv.config) != m:
+                if hasattr(inv, 'config') and view(inv.config) != m:
                     return False
         return Config.instance() is DEFAULT
     finally:
